@@ -101,13 +101,44 @@ def generate(run_seed, tier):
                                "truncate_s", "extend_r", "extend_s", "swap",
                                "empty_r", "flip_r", "join"])
                      for _ in range(nf)]
+        bad = None
+        if r.random() < 0.12:
+            # a failed call (wrong type / out of domain order) made by another
+            # part of the program, and a call for an unrelated order, before
+            # this item: neither may influence it
+            bad = dict(kind=r.choice(["float", "none", "str", "neg", "zero",
+                                      "other"]),
+                       fn=r.choice(["orderlen", "encode", "decode",
+                                    "number_to_string"]),
+                       n2=max(2, r.getrandbits(r.choice([5, 9, 17, 70, 200,
+                                                         521, 1030]))))
         items.append(dict(fmt=fmt, r=_val(r, n), s=_val(r, n), faults=kinds,
+                          bad=bad,
                           fseed=r.getrandbits(32), mv=r.random() < 0.3,
                           buf=r.choice(["bytes", "bytes", "bytes", "mv",
                                         "bytearray", "arrayB", "arrayH",
                                         "mvH", "arrayI", "arrayb", "mvb",
                                         "mvc"])))
     return dict(order=n, items=items)
+
+
+def _bad_call(lu, bad, n, r_, s_):
+    n2 = bad["n2"]
+    arg = {"float": float(n) if n < (1 << 900) else 13.0,
+           "none": None, "str": str(n), "neg": -n, "zero": 0,
+           "other": n2}[bad["kind"]]
+    for order in (n2, arg):
+        try:
+            if bad["fn"] == "orderlen":
+                lu.orderlen(order)
+            elif bad["fn"] == "encode":
+                lu.sigencode_string(r_, s_, order)
+            elif bad["fn"] == "decode":
+                lu.sigdecode_string(b"\x01\x02", order)
+            else:
+                lu.number_to_string(r_, order)
+        except Exception:
+            pass
 
 
 def execute(prog):
@@ -135,6 +166,9 @@ def execute(prog):
         r_, s_ = it["r"] % n, it["s"] % n
         fmt = it["fmt"]
         rnd = random.Random(it["fseed"])
+        if it.get("bad"):
+            _bad_call(lu, it["bad"], n, r_, s_)
+            core.bump(out["faults"], "failed_call_" + it["bad"]["kind"])
         want_r = r_.to_bytes(L, "big")
         want_s = s_.to_bytes(L, "big")
         try:
